@@ -5,7 +5,7 @@ from . import base
 from ..arith import hist_of, warm, overwrite_in_place
 
 TRUSTED_BASE = base.TRUSTED_BASE + ['np.sum/cumsum/prod/cumprod/dot/trace/max/min/sort/clip/transpose/diagonal on integer arrays are modelled by list folds and re-indexing (Model/Reduce.lean)']
-ASSUMPTIONS = base.ASSUMPTIONS + ['results up to 53 bits (int64 accumulation exact); np.matmul is not dispatched to a fixed-point kernel, only its values are demanded',
+ASSUMPTIONS = base.ASSUMPTIONS + ['results up to 53 bits (int64 accumulation exact); of np.matmul (dispatched to a kernel sized like dot since D66) only the values are demanded',
                                   'NumPy-route = method-route is a dispatch fact established by correspondence only']
 RULE = ('RD lines: (function, call route numpy/method, axis None/0/1, shape up to 3x3 or length 8, format n_word<=12, overflow config, codes) with elements all-min / all-max / mixed extremes / random; '
         'RDD: dot of 1-D/2-D operands with mixed signedness; RDC: clip; RDM: np.matmul values. non-trivial = more than one element (always) and some element at an extreme of its format')
